@@ -86,11 +86,20 @@ var (
 	c26DepositAddr  = common.HexToAddress("0x00000000219ab540356cBB839Cbe05303d7705Fa")
 	c26FreshAddr    = common.HexToAddress("0xc01bc01bc01bc01bc01bc01bc01bc01bc01b0001") // absent from every pre-state
 	c26ObserverAddr = common.HexToAddress("0x0b5e000000000000000000000000000000000001")
-	c26Gwei         = big.NewInt(1_000_000_000)
-	c26Ether        = new(big.Int).Exp(big.NewInt(10), big.NewInt(18), nil)
+	// authority probe: performs one EIP-2929 priced access per address that can be the
+	// authority of an EIP-7702 tuple and records what that access cost (c26AuthProbeCode)
+	c26AuthProbeAddr = common.HexToAddress("0x0b5e000000000000000000000000000000000002")
+	c26Gwei          = big.NewInt(1_000_000_000)
+	c26Ether         = new(big.Int).Exp(big.NewInt(10), big.NewInt(18), nil)
 )
 
-const c26NumKeys = 5
+// Keys 0-3 send transactions (key 4 too when it carries a delegation), keys 2-5 sign
+// authorizations. Key 5 never sends: its account is absent, a plain EOA or holds real
+// (non-delegation) code, the state in which EIP-7702 skips a tuple at the code check.
+const (
+	c26NumKeys     = 6
+	c26AuthOnlyKey = 5
+)
 
 func init() {
 	for i := 0; i < c26NumKeys; i++ {
@@ -141,6 +150,9 @@ type c26Case struct {
 	txNeed  []uint64           // max(intrinsic, floor) of transaction i
 	world   *ep.World
 	classes []string
+	// authOnly is the pre-state of key 5's account: "absent", "eoa" or "code"
+	authOnly  string
+	probeNote string
 	// excluded counts triggers of the acknowledged finding "deposit-layout" that the
 	// generator replaced by a canonical record.
 	excluded int
@@ -215,6 +227,9 @@ func c26Draw(rt *rapid.T, d c26Domain) *c26Case {
 	// ---- contracts
 	others := ep.DefaultOthers()
 	extra := []common.Address{c26Addrs[0], c26Addrs[4], c26FreshAddr}
+	if d.setCodeTxs { // two more possible authorities of EIP-7702 tuples
+		extra = append(extra, c26Addrs[2], c26Addrs[c26AuthOnlyKey])
+	}
 	if d.systemCode {
 		extra = append(extra, params.BeaconRootsAddress, params.HistoryStorageAddress, params.WithdrawalQueueAddress, params.ConsolidationQueueAddress)
 	}
@@ -256,6 +271,27 @@ func c26Draw(rt *rapid.T, d c26Domain) *c26Case {
 			c.class("pre:sender-nonce-max")
 		}
 		var code []byte
+		if i == c26AuthOnlyKey {
+			// the authority-only account: absent (a valid tuple then earns no refund), a
+			// plain EOA, or an account with real code (EIP-7702 step 5 skips the tuple,
+			// after step 4 has made the authority warm)
+			c.authOnly = "eoa"
+			if d.setCodeTxs {
+				c.authOnly = c26Pick(rt, "auth-only-account", "absent", "eoa", "code", "code")
+			}
+			c.class("pre:auth-only-" + c.authOnly)
+			switch c.authOnly {
+			case "absent":
+				nonces[i] = 0
+				continue
+			case "code":
+				nonces[i] = c26Pick(rt, "auth-only-nonce", uint64(0), 1)
+				code = c26Pick(rt, "auth-only-code", []byte{0x00}, []byte{0x60, 0x01, 0x5f, 0x55, 0x00}, w.Contracts[0].Code)
+				if _, isDelegation := types.ParseDelegation(code); len(code) == 0 || isDelegation {
+					code = []byte{0x00}
+				}
+			}
+		}
 		if i == 4 && delegated {
 			tgt := c26Pick(rt, "delegation-target", common.Address(w.Contracts[0].Addr), common.Address(w.Contracts[len(w.Contracts)-1].Addr),
 				common.Address(ep.PrecompileAddr(4)), common.Address(ep.EOAAddr), c26Addrs[4], common.Address(ep.MissingAddr))
@@ -291,6 +327,13 @@ func c26Draw(rt *rapid.T, d c26Domain) *c26Case {
 	// (success flag, return data) part of the post-state and of the logs
 	c.put(c26ObserverAddr, 1, big.NewInt(0), c26Observer(w.Contracts[0].Addr),
 		map[common.Hash]common.Hash{{}: common.BigToHash(big.NewInt(7)), common.BigToHash(big.NewInt(1)): common.BigToHash(big.NewInt(7))})
+
+	// ---- authority probe (see c26AuthProbeCode)
+	if d.setCodeTxs {
+		var probe []byte
+		probe, c.probeNote = c26AuthProbeCode(rt)
+		c.put(c26AuthProbeAddr, 1, big.NewInt(1000), probe, nil)
+	}
 
 	// ---- deposit contract stand-in: LOG1(DepositEvent topic, calldata)
 	if d.systemCode {
@@ -390,7 +433,13 @@ func (c *c26Case) drawTx(rt *rapid.T, d c26Domain, idx int, nonces []uint64, blo
 	var to *common.Address
 	var toNote string
 	{
-		wts := []int{6, 3, 2, 1, 2, 0, 0, 0, 0, 0, 7}
+		wts := []int{6, 3, 2, 1, 2, 0, 0, 0, 0, 0, 7, 0}
+		if d.setCodeTxs {
+			wts[11] = 1
+			if typ == refevm.TxSetCode && fork >= refevm.Prague {
+				wts[11] = 10
+			}
+		}
 		if d.systemCode {
 			wts[8], wts[9] = 1, 1
 		}
@@ -436,6 +485,9 @@ func (c *c26Case) drawTx(rt *rapid.T, d c26Domain, idx int, nonces []uint64, blo
 		case 10:
 			a := c26ObserverAddr
 			to, toNote = &a, "observer"
+		case 11:
+			a := c26AuthProbeAddr
+			to, toNote = &a, "auth-probe"
 		}
 	}
 
@@ -519,25 +571,31 @@ func (c *c26Case) drawTx(rt *rapid.T, d c26Domain, idx int, nonces []uint64, blo
 	var auths []types.SetCodeAuthorization
 	var refAuths []refevm.Auth
 	authBumps := make([]uint64, c26NumKeys) // authorizations expected to be applied, per key
+	var authNotes []string
 	if typ == refevm.TxSetCode {
 		n := c26Pick(rt, "auth-len", 1, 1, 2, 3)
 		if d.defects && ep.Uniform(rt, "auth-empty", 12) == 0 {
 			n = 0
 		}
 		for i := 0; i < n; i++ {
-			ai := c26Pick(rt, "auth-key", 2, 3, 4, si)
+			ai := c26Pick(rt, "auth-key", 2, 3, 4, si, c26AuthOnlyKey, c26AuthOnlyKey)
 			chain := c26Pick(rt, "auth-chain", uint64(1), 1, 0, 2)
 			nonce := nonces[ai] + authBumps[ai]
 			if ai == si {
 				nonce++ // the sender's nonce is bumped before the list is processed
 			}
+			expected := nonce
 			likely := chain != 2
 			switch ep.Uniform(rt, "auth-nonce", 8) {
-			case 0:
+			case 0, 2:
 				nonce++
 				likely = false
 			case 1:
 				nonce = c26Pick(rt, "auth-nonce-odd", uint64(0), 1<<64-1)
+				likely = false
+			}
+			hasCode := ai == c26AuthOnlyKey && c.authOnly == "code"
+			if hasCode {
 				likely = false
 			}
 			target := c26Pick(rt, "auth-target", common.Address(w.Contracts[0].Addr), common.Address(w.Contracts[len(w.Contracts)-1].Addr),
@@ -549,6 +607,19 @@ func (c *c26Case) drawTx(rt *rapid.T, d c26Domain, idx int, nonces []uint64, blo
 			sigDefect := ep.Uniform(rt, "auth-sig-defect", 14)
 			if likely && sigDefect > 3 {
 				authBumps[ai]++
+			}
+			// A tuple with a good signature, chain id and nonce < 2^64-1 that the code check
+			// or the nonce check skips: EIP-7702 has already added its authority to
+			// accessed_addresses. (Labels are the generator's expectation, not an oracle.)
+			if sigDefect > 3 && chain != 2 && nonce != 1<<64-1 && (hasCode || nonce != expected) {
+				kind := "nonce"
+				if hasCode {
+					kind = "has-code"
+				}
+				c.class("auth:skipped-" + kind)
+				if ai != si && toNote == "auth-probe" && fork >= refevm.Prague {
+					c.class("auth:skipped-" + kind + "-authority-probed")
+				}
 			}
 			switch sigDefect {
 			case 0: // high-s twin of the same signature: valid ECDSA, forbidden by EIP-7702/EIP-2
@@ -567,6 +638,11 @@ func (c *c26Case) drawTx(rt *rapid.T, d c26Domain, idx int, nonces []uint64, blo
 				c.class("auth:other-signer")
 			}
 			auths = append(auths, auth)
+			sigNote := "ok"
+			if sigDefect <= 3 {
+				sigNote = []string{"high-s", "r-zero", "bad-parity", "other-signer"}[sigDefect]
+			}
+			authNotes = append(authNotes, fmt.Sprintf("{key%d chain=%d nonce=%d(account %d) target=%x sig=%s}", ai, chain, auth.Nonce, expected, target, sigNote))
 			refAuths = append(refAuths, refevm.Auth{ChainID: new(big.Int).SetUint64(chain), Addr: refevm.Addr(auth.Address), Nonce: auth.Nonce,
 				YParity: auth.V, R: auth.R.ToBig(), S: auth.S.ToBig()})
 		}
@@ -725,8 +801,8 @@ func (c *c26Case) drawTx(rt *rapid.T, d c26Domain, idx int, nonces []uint64, blo
 	}
 	mk(gas)
 	c.remake = append(c.remake, mk)
-	c.txNotes = append(c.txNotes, fmt.Sprintf("type=%d from=key%d to=%s gas=%d(%s; intrinsic=%d floor=%d) nonce=%d value=%v feeCap=%v tip=%v data=%d auths=%d blobs=%d %s",
-		typ, si, toNote, gas, gasNote, intrinsic, floor, nonce, value, feeCap, tipCap, len(data), len(auths), len(blobHashes), feeDefect))
+	c.txNotes = append(c.txNotes, fmt.Sprintf("type=%d from=key%d to=%s gas=%d(%s; intrinsic=%d floor=%d) nonce=%d value=%v feeCap=%v tip=%v data=%d auths=%d%s blobs=%d %s",
+		typ, si, toNote, gas, gasNote, intrinsic, floor, nonce, value, feeCap, tipCap, len(data), len(auths), strings.Join(authNotes, ""), len(blobHashes), feeDefect))
 	c.class(fmt.Sprintf("tx:type%d", typ))
 	c.class("tx:to-" + toNote)
 	c.class("tx:gas-" + gasNote)
@@ -765,6 +841,62 @@ func c26Observer(target [20]byte) []byte {
 	code = append(code, 0x3d, 0x5f, 0x20, 0x60, 0x01, 0x55)
 	code = append(code, 0x3d, 0x5f, 0xa0, 0x00)
 	return code
+}
+
+// c26AuthProbeCode draws the code of the authority probe. EIP-7702 adds the authority
+// of a tuple to accessed_addresses as soon as chain id, nonce bound and signature are
+// fine - before the "code empty or delegation" and "nonce matches" checks - so whether
+// a skipped tuple left its authority warm is visible only in the price of the first
+// later access to that address. The probe makes that first access, once per key that
+// can sign tuples (keys 2..5, drawn order, drawn EIP-2929 priced opcode), and stores
+// the gas each access consumed; it ends with STOP or with SELFDESTRUCT to one such
+// address (which is then left out of the other probes, so that the SELFDESTRUCT is the
+// first access).
+func c26AuthProbeCode(rt *rapid.T) ([]byte, string) {
+	a := &c26Asm{Asm: ep.NewAsm(true), slot: 0x40}
+	var notes []string
+	keys := []int{2, 3, 4, 5}
+	rot := ep.Uniform(rt, "probe-rotation", len(keys))
+	keys = append(keys[rot:], keys[:rot]...)
+	if ep.Uniform(rt, "probe-reverse", 2) == 0 {
+		for i, j := 0, len(keys)-1; i < j; i, j = i+1, j-1 {
+			keys[i], keys[j] = keys[j], keys[i]
+		}
+	}
+	beneficiary := -1
+	if ep.Uniform(rt, "probe-selfdestruct", 4) == 0 {
+		beneficiary = keys[len(keys)-1]
+		keys = keys[:len(keys)-1]
+	}
+	for _, k := range keys {
+		x := c26Addrs[k]
+		op := c26Pick(rt, "probe-op", ep.BALANCE, ep.BALANCE, ep.EXTCODESIZE, ep.EXTCODEHASH, ep.EXTCODECOPY, ep.CALL, ep.CALL, ep.CALLCODE, ep.DELEGATECALL, ep.STATICCALL)
+		switch op {
+		case ep.BALANCE, ep.EXTCODESIZE, ep.EXTCODEHASH:
+			a.gasOf(func() { a.PushAddr(x).Op(op) })
+			notes = append(notes, fmt.Sprintf("%s(key%d)", ep.OpName(op), k))
+		case ep.EXTCODECOPY:
+			a.gasOf(func() { a.PushU(32).PushU(0).PushU(0).PushAddr(x).Op(ep.EXTCODECOPY).PushU(0) })
+			notes = append(notes, fmt.Sprintf("EXTCODECOPY(key%d)", k))
+		default:
+			gas := c26Pick(rt, "probe-call-gas", uint64(0), 2300, 30_000, 30_000)
+			all := ep.Uniform(rt, "probe-call-all-gas", 4) == 0
+			val := uint64(ep.Uniform(rt, "probe-call-value", 2))
+			a.gasOf(func() { a.call(op, gas, all, x, val, 0) })
+			notes = append(notes, fmt.Sprintf("%s(key%d gas=%d all=%v value=%d)", ep.OpName(op), k, gas, all, val))
+		}
+	}
+	if beneficiary >= 0 {
+		a.PushAddr(c26Addrs[beneficiary]).Op(ep.SELFDESTRUCT)
+		notes = append(notes, fmt.Sprintf("SELFDESTRUCT(key%d)", beneficiary))
+	} else {
+		a.Op(ep.STOP)
+	}
+	code, err := a.Bytes()
+	if err != nil {
+		rt.Fatalf("VERIF-HARNESS-BUG: asm: %v", err)
+	}
+	return code, strings.Join(notes, " ")
 }
 
 // c26DepositEmitter is a stand-in for the deposit contract: it emits its calldata as
@@ -1061,6 +1193,9 @@ func (c *c26Case) render() string {
 		for i, ct := range c.world.Contracts {
 			fmt.Fprintf(&b, "  contract %d @%x: %s\n    code %x\n", i, ct.Addr, ct.Prog.Describe(), ct.Code)
 		}
+	}
+	if c.probeNote != "" {
+		fmt.Fprintf(&b, "  authority probe @%x (keys 2..5 = %x %x %x %x): %s\n", c26AuthProbeAddr, c26Addrs[2], c26Addrs[3], c26Addrs[4], c26Addrs[5], c.probeNote)
 	}
 	for i, n := range c.txNotes {
 		fmt.Fprintf(&b, "  tx %d: %s\n    data %x\n", i, n, c.txs[i].Data())
